@@ -469,12 +469,23 @@ void ares_thread_mutex_destroy(ares_thread_mutex_t *mut)
   ares_free(mut);
 }
 
+#ifdef CARES_VERIF_HOOKS
+/* verification hook: lock-order log for every library mutex
+ * ev: 1 = acquired, 2 = about to release */
+void (*ares_verif_mutex_cb)(const void *mut, int ev) = NULL;
+#endif
+
 void ares_thread_mutex_lock(ares_thread_mutex_t *mut)
 {
   if (mut == NULL) {
     return;
   }
   pthread_mutex_lock(&mut->mutex);
+#ifdef CARES_VERIF_HOOKS
+  if (ares_verif_mutex_cb != NULL) {
+    ares_verif_mutex_cb(mut, 1);
+  }
+#endif
 }
 
 void ares_thread_mutex_unlock(ares_thread_mutex_t *mut)
@@ -482,6 +493,11 @@ void ares_thread_mutex_unlock(ares_thread_mutex_t *mut)
   if (mut == NULL) {
     return;
   }
+#ifdef CARES_VERIF_HOOKS
+  if (ares_verif_mutex_cb != NULL) {
+    ares_verif_mutex_cb(mut, 2);
+  }
+#endif
   pthread_mutex_unlock(&mut->mutex);
 }
 
